@@ -98,77 +98,98 @@ def wrapper_shape(ctx: Ctx):
 
     # module constant RAISE_EXCEPTION must be False
     raise_const = mod.assigns.get('RAISE_EXCEPTION')
+    from ..core import inline_locals
+
     dispatch = False
     final_ok = False
     warned = False
-    body = wrapper.body
-    for i, st in enumerate(body):
-        last = i == len(body) - 1
-        if isinstance(st, ast.Assign) and isinstance(st.value, (ast.JoinedStr, ast.Constant)):
-            continue  # the message
-        if isinstance(st, ast.Expr) and isinstance(st.value, ast.Call) and dotted(st.value.func) == 'warnings.warn':
-            cat = st.value.args[1] if len(st.value.args) > 1 else None
-            if cat is not None and unparse(cat) not in ('DeprecationWarning', 'FutureWarning', 'PendingDeprecationWarning'):
-                problems.append((st, f'the warning category is {unparse(cat)}'))
-            warned = True
-            continue
-        if isinstance(st, ast.If) and isinstance(st.test, ast.Name) and st.test.id == 'RAISE_EXCEPTION':
-            try:
-                on = bool(const_value(raise_const))
-            except ValueError:
-                on = True
-            if on:
-                problems.append((st, 'RAISE_EXCEPTION is not the constant False: every alias raises instead of forwarding'))
-            if not all(isinstance(x, ast.Raise) or (isinstance(x, ast.Assign) and isinstance(x.value, (ast.JoinedStr, ast.Constant))) for x in st.body) or st.orelse:
-                problems.append((st, 'the RAISE_EXCEPTION branch does more than raise'))
-            continue
-        if (
-            isinstance(st, ast.If)
-            and not st.orelse
-            and len(st.body) == 1
-            and isinstance(st.body[0], ast.Return)
-            and is_forward(st.body[0].value, receiver_getattr)
-            and unparse(st.body[0].value.args[0].value) == f'{va}[1:]'
-        ):
-            # guard: conjunction of harmless tests about the receiver
-            terms = st.test.values if isinstance(st.test, ast.BoolOp) and isinstance(st.test.op, ast.And) else [st.test]
-            okg = True
-            for t in terms:
-                txt = unparse(t)
-                if txt == va:
+    unknown: list[ast.AST] = []
+    own_only: list[str] = []
+
+    def flag_ok(t: ast.expr) -> bool:
+        """a harmless test about the receiver: the is-a-method flag, `args`, hasattr(type(args[0]) | args[0], new_func.__name__)"""
+        t = inline_locals(wrapper.node, t)
+        txt = unparse(t)
+        if txt == va:
+            return True
+        if isinstance(t, ast.Name) and _is_method_flag(decorator, t.id, old_param):
+            return True
+        if txt in (f'{new_param}.__name__ in vars(type({va}[0]))', f'{new_param}.__name__ in type({va}[0]).__dict__'):
+            own_only.append(txt)  # true only when the class of the receiver itself defines the replacement
+            return True
+        return txt in (f'hasattr(type({va}[0]), {new_param}.__name__)', f'hasattr({va}[0], {new_param}.__name__)')
+
+    def walk(stmts, conds):
+        nonlocal dispatch, final_ok, warned
+        for st in stmts:
+            if isinstance(st, ast.Expr) and isinstance(st.value, ast.Constant):
+                continue
+            if isinstance(st, ast.Assign) and len(st.targets) == 1 and isinstance(st.targets[0], ast.Name):
+                # a local: the message, or a name for part of the forwarding expression (looked through below)
+                v = st.value
+                pure = not any(isinstance(n, ast.Call) and not (isinstance(n.func, ast.Name) and n.func.id in ('getattr', 'hasattr', 'type', 'str', 'len')) for n in ast.walk(v))
+                if isinstance(v, (ast.JoinedStr, ast.Constant)) or pure:
                     continue
-                if isinstance(t, ast.Name) and _is_method_flag(decorator, t.id, old_param):
+                unknown.append(st)
+                continue
+            if isinstance(st, ast.Expr) and isinstance(st.value, ast.Call) and dotted(st.value.func) == 'warnings.warn':
+                cat = st.value.args[1] if len(st.value.args) > 1 else None
+                if cat is not None and unparse(cat) not in ('DeprecationWarning', 'FutureWarning', 'PendingDeprecationWarning'):
+                    problems.append((st, f'the warning category is {unparse(cat)}'))
+                if conds:
+                    problems.append((st, 'the warning is issued only under a condition'))
+                warned = True
+                continue
+            if isinstance(st, ast.If) and isinstance(st.test, ast.Name) and st.test.id == 'RAISE_EXCEPTION':
+                try:
+                    on = bool(const_value(raise_const))
+                except ValueError:
+                    on = True
+                if on:
+                    problems.append((st, 'RAISE_EXCEPTION is not the constant False: every alias raises instead of forwarding'))
+                if not all(isinstance(x, ast.Raise) or (isinstance(x, ast.Assign) and isinstance(x.value, (ast.JoinedStr, ast.Constant))) for x in st.body) or st.orelse:
+                    problems.append((st, 'the RAISE_EXCEPTION branch does more than raise'))
+                continue
+            if isinstance(st, ast.If):
+                terms = st.test.values if isinstance(st.test, ast.BoolOp) and isinstance(st.test.op, ast.And) else [st.test]
+                if all(flag_ok(t) for t in terms) and not st.orelse:
+                    walk(st.body, conds + terms)
                     continue
-                if txt in (
-                    f'hasattr(type({va}[0]), {new_param}.__name__)',
-                    f'hasattr({va}[0], {new_param}.__name__)',
-                ):
-                    continue
-                okg = False
-            if okg:
-                dispatch = True
-            else:
-                problems.append((st, f'unrecognised guard of the receiver dispatch: {unparse(st.test)}'))
-            continue
-        if isinstance(st, ast.Return) and last:
-            if is_forward(st.value, plain_new) and unparse(st.value.args[0].value) == va:
-                final_ok = True
-            else:
-                problems.append((st, f'the wrapper returns {unparse(st.value)} instead of {new_param}(*{va}, **{kw})'))
-            continue
-        problems.append((st, f'statement other than message / warning / forwarding in the alias wrapper: {unparse(st)[:80]}'))
-    if not final_ok and not any('returns' in p[1] for p in problems):
+                unknown.append(st)
+                continue
+            if isinstance(st, ast.Return):
+                v = inline_locals(wrapper.node, st.value) if st.value is not None else None
+                if conds:
+                    if is_forward(v, receiver_getattr) and unparse(v.args[0].value) == f'{va}[1:]':
+                        # the receiver dispatch needs at least: there is a receiver
+                        dispatch = True
+                    else:
+                        problems.append((st, f'under the receiver tests the wrapper returns {unparse(v) if v is not None else None} instead of getattr({va}[0], {new_param}.__name__)(*{va}[1:], **{kw})'))
+                else:
+                    if is_forward(v, plain_new) and unparse(v.args[0].value) == va:
+                        final_ok = True
+                    else:
+                        problems.append((st, f'the wrapper returns {unparse(v) if v is not None else None} instead of {new_param}(*{va}, **{kw})'))
+                continue
+            unknown.append(st)
+
+    walk(wrapper.body, [])
+    if not final_ok and not unknown and not any('returns' in p[1] for p in problems):
         problems.append((wrapper.node, f'the wrapper does not end with `return {new_param}(*{va}, **{kw})`'))
-    if not warned:
+    if not warned and not unknown:
         problems.append((wrapper.node, 'the wrapper issues no warning'))
+    wrapper_shape.unknown = unknown
+    wrapper_shape.own_only = bool(own_only) and dispatch
     return dispatch, problems, dep
 
 
 def _is_method_flag(decorator: FuncInfo, name: str, old_param: str) -> bool:
     """``name`` is assigned in the decorator from old_func.__qualname__ (is the alias a method?)"""
+    from ..core import inline_locals
+
     for st in decorator.body:
         if isinstance(st, ast.Assign) and any(isinstance(t, ast.Name) and t.id == name for t in st.targets):
-            return f'{old_param}.__qualname__' in unparse(st.value)
+            return f'{old_param}.__qualname__' in unparse(inline_locals(decorator.node, st.value))
     return False
 
 
@@ -193,9 +214,14 @@ def run(ctx: Ctx) -> None:
     ctx.rule('C20.D7', 'hand-written obsolete property aliases (logger.warning "Use <new> instead of <old>") read and write the new property')
 
     dispatch, problems, dep = wrapper_shape(ctx)
-    ctx.add('C20.D5', 'deprecated.deprecated.wrapper', not problems, dep,
-            'wrapper forwards and only warns' if not problems else '; '.join(p[1] for p in problems),
-            detail='; '.join(p[1] for p in problems))
+    unknown = getattr(wrapper_shape, 'unknown', [])
+    if problems or not unknown:
+        ctx.add('C20.D5', 'deprecated.deprecated.wrapper', not problems, dep,
+                'wrapper forwards and only warns' if not problems else '; '.join(p[1] for p in problems),
+                detail='; '.join(p[1] for p in problems), positive=True)
+    else:
+        ctx.shape('C20.D5', 'deprecated.deprecated.wrapper', False, dep, '', 'message, constant-false RAISE_EXCEPTION branch, warnings.warn, receiver dispatch under harmless tests, forwarding return; found besides: '
+                  + ' | '.join(unparse(u)[:60] for u in unknown[:3]))
     _check_param_wrapper(ctx)
 
     aliases: list[tuple[FuncInfo, ast.expr]] = []
@@ -268,11 +294,19 @@ def run(ctx: Ctx) -> None:
                     continue
                 actual = S.resolve(t.id)
                 n_pairs += 1
-                ok = dispatch or actual is captured
+                if unknown and not dispatch:
+                    ok = True if actual is captured else None  # the wrapper has a shape the rule does not know: no verdict on the dispatch
+                elif getattr(wrapper_shape, 'own_only', False):
+                    # the wrapper looks the replacement up in the receiver's own class only
+                    ok = actual is captured or t.id in S.methods
+                else:
+                    ok = dispatch or actual is captured
                 ctx.add('C20.D4', f'{S.name}.{name}', ok, (f.file, f.line),
                         f'{S.name}().{name}() runs {captured.qualname}'
                         + ('' if actual is captured else f' while {S.name}().{t.id}() runs {actual.qualname}')
-                        + (' (wrapper dispatches on the receiver)' if dispatch and actual is not captured else ''),
+                        + (' (wrapper dispatches on the receiver)' if dispatch and actual is not captured and ok else '')
+                        + (' (the wrapper dispatches only when the class of the receiver itself defines the replacement)' if ok is False and getattr(wrapper_shape, 'own_only', False) else '')
+                        + (' - shape of the wrapper not recognised, dispatch not decided' if ok is None else ''),
                         detail=f'{captured.qualname}!={actual.qualname if actual else None}')
     ctx.floor('C20.D1', 100)
     ctx.floor('C20.D4', 150)
